@@ -46,6 +46,7 @@ CHECKS['C12'] = dict(
 )
 
 CHECKS['C13'] = dict(
+    quick_is_thorough=True,
     level='model_checking',
     steps=[dict(mode='asan', bin='c13_cmap')],
     rule='for every font variant EVERY code point 0..0x110010 is looked up through DirectCmap (options 0) and CachedCmap (gr_face_cacheCmap) and compared with a reference lookup written from the OpenType spec '
@@ -199,7 +200,7 @@ CHECKS['C14'] = dict(
          'Oracle: no fault, return in {-1} u [0,size]; size returned == announced size only if the reference decodes to exactly those bytes; valid shrinking encodings obeying the end-of-block rules must be accepted. '
          '(table_wrapper) the [version][scheme:5|announced size:27] header of the compressed Silf and Glat tables of the three compressed S-full variants (thorough + Awami compressed): ALL 32 scheme values x 32 boundary sizes (0..5, 7..9, 12, 13, 16, compressed length +-1/-8/-9, true size +-1/+-4, half, double, powers of two, 27-bit maximum), loaded with options 0 and 7 under ASan: no fault, unmodified header loads and reports the uncompressed face, borrowed tables returned. '
          'Transparency: S-full with Silf / Glat / both compressed under EVERY encoding that differs from the greedy parse in 1 decision (thorough: 2 nearby decisions) out of {literal instead of match, shortest match, farthest offset, 19-byte match (length-extension byte)}: plus, for each table, the valid blocks that are exactly 1..12 bytes shorter than the data (last matches shortened or dropped): must load (options 0 and 7) and give the same face dump and the same segments for all strings <=2 (thorough <=3) over 9 characters x dir 0/1 as the uncompressed font; '
-         'shipped pair Awami_test / Awami_compressed_test on the awami corpus x dir {1,3} x options {0,7}',
+         'shipped pair Awami_test / Awami_compressed_test on the whole awami corpus x dir {1,3} x options {0,7}',
     state_meaning='one compressed block (or one compressed font); transitions = decoder runs compared with the reference decoder / shapings compared with the uncompressed font',
     level_text='Exhaustive enumeration of structured LZ4 blocks, truncations and byte deviations against a reference decoder on guard-paged buffers; enumeration of valid encodings of real tables for the transparency clause.',
     level_note='Trusted: reference decoder and enumerating encoder (gen/lz4enum.py), guard pages. Lengths, offsets and decision deviations are bounded sets.',
@@ -242,7 +243,7 @@ CHECKS['C17'] = dict(
     steps=[dict(mode='asan', bin='c17_collision')],
     rule='(zones) EVERY sequence of <=3 (thorough <=4) operations over {exclude(a,b), exclude_with_margins(a,b,axis 0|2), weighted<XY> x 3 weight tuples, weighted<SD>} with endpoints a<b from a 7-point (thorough 8-point) lattice around bounds [0,8] plus degenerate/reversed intervals, after initialise<XY|SD>, on a real Zones object; '
          'after every operation: intervals sorted, non-empty, disjoint, inside the bounds, cell-wise equal (free/excluded and summed cost coefficients) to a unit-cell reference model; closest() from every half-lattice origin returns cost -1 iff every cell is excluded and otherwise a position inside a free cell. '
-         '(end to end) every ShiftCollider::resolve performed while shaping (hooks in Pass::resolveCollisions): Awami_test, Awami_compressed_test, AwamiNastaliq-Regular x awami corpus lines/words (250 quick / all thorough) x dir {1,3}, and S-full / S-full RTL / S-full without sub-boxes x all strings of length 1..4 (thorough 1..5) containing a mark over 7 characters x dir {0,1}: '
+         '(end to end) every ShiftCollider::resolve performed while shaping (hooks in Pass::resolveCollisions): Awami_test, Awami_compressed_test, AwamiNastaliq-Regular x all awami corpus lines/words x dir {1,3}, and S-full / S-full RTL / S-full without sub-boxes x all strings of length 1..4 (thorough 1..5) containing a mark over 7 characters x dir {0,1}: '
          'limit clause (accumulated offset + new shift inside a well-formed limit rectangle when it started inside), verdict clause (isCol false => the target bounding octabox at its new placement is separated, on one of the four octagon axes, from the octabox or every sub-octabox of each merged non-ignored neighbour; tolerance 0.05), Zones invariants of the four axis ranges. LTR glyphs with x-asymmetric limits are outside the property (DESIGN 7.1). '
          '(collider_lattice) a real ShiftCollider on a real segment: target glyph at the origin, ONE neighbour on a 21x21 (thorough 31x31) lattice of origins spanning both glyph extents, x (target, neighbour) from 5 (thorough 8) octabox-bearing glyphs of Awami_test and of S-full (with and without sub-boxes) x 5 limit rectangles (incl. zero-area) x margin {0,20} x 6 accumulated offsets x 2 current shifts x dir {LTR,RTL} x isAfter {0,1}: initSlot, mergeSlot, resolve, then the same three clauses. '
          '(collider_lattice_seq) the one-neighbour lattice with sequence-order constraints on the pair (collision.order in {RIGHTUP, LEFTDOWN, NOABOVE, NOBELOW, NOLEFT, NORIGHT} x {same sequence class, proximity class}, sameCluster, order weights) and with an exclusion glyph on the neighbour (2 offsets): same three clauses (these regions only remove or penalise space). '
